@@ -190,26 +190,22 @@ func (g *Gen) UtxoSpendPre(o SpendOpts, pre func(tx *types.UTXOTransaction, dest
 	return g.utxoSpend(o, pre)
 }
 
-// dropTokensAtCreation books what the chain does to issued tokens held by an
-// address at the moment a contract is created there: StateDB.CreateAccount
-// carries the coin balance of the existing account over to the new object and
-// nothing else, so the token balances are gone. The ledger follows the chain
-// (per-account prediction stays exact) and reports the amount under
-// LostAtCreation for the conservation oracle.
-func (l *Ledger) dropTokensAtCreation(addr common.Address) {
-	if !l.CreationDropsTokens {
-		return
-	}
+// noteTokensAtCreation records (without changing any balance) issued tokens
+// that sit at an address at the moment a contract is successfully created
+// there: they must still be there afterwards. StateDB.CreateAccount once
+// carried only the coin balance over to the new account object (C06 finding
+// destroyed/tokens-at-address-when-contract-created-there, fixed); the C06 rig
+// uses the record to name a token deficit of such a block precisely.
+func (l *Ledger) noteTokensAtCreation(addr common.Address) {
 	for _, t := range l.Tokens() {
 		if t == Native {
 			continue
 		}
 		if v := l.Balance(t, addr); v.Sign() > 0 {
-			if l.LostAtCreation == nil {
-				l.LostAtCreation = map[common.Address]*big.Int{}
+			if l.TokensAtCreation == nil {
+				l.TokensAtCreation = map[common.Address]*big.Int{}
 			}
-			bump(l.LostAtCreation, t, v)
-			l.set(t, addr, new(big.Int))
+			bump(l.TokensAtCreation, t, v)
 		}
 	}
 }
